@@ -562,7 +562,12 @@ class Emitter:
         cond = ks[idx]
         then = ks[idx + 1]
         els = ks[idx + 2] if len(ks) > idx + 2 else None
-        # the `if (!is_loggable(..)) ; else log << ...` wrapper
+        # the `if (!is_loggable(..)) ; else log << ...` wrapper of the glout_/slout_ macros: dropped as a whole (the condition only reads the level mask)
+        if els is not None and then.get('kind') == 'NullStmt' and self.is_log_stmt(els) and not self.f.get('keep_logging'):
+            self.check_droppable(els)
+            self.check_droppable(cond)
+            self.rules['drop_logging_stmt'] += 1
+            return ['/* logging statement dropped */;']
         pre, c = self.with_pre(lambda: self.expr(cond))
         out = list(pre)
         out.append('if (%s)' % c)
@@ -887,10 +892,24 @@ class Emitter:
         a, b = self.kids(n)
         if op in ('&&', '||'):
             ea = self.expr(a)
+            saved_tmp = self.tmp_no
             self.nohoist += 1
-            eb = self.expr(b)
-            self.nohoist -= 1
-            return '(%s %s %s)' % (ea, op, eb)
+            try:
+                eb = self.expr(b)
+                return '(%s %s %s)' % (ea, op, eb)
+            except Unsupported as e:
+                if 'hoisting is not possible' not in str(e) or self.nohoist > 1 or self.pre is None:
+                    raise
+            finally:
+                self.nohoist -= 1
+            # the right operand needs temporaries: keep the short circuit with an explicit if on a result temporary
+            self.tmp_no = saved_tmp
+            self.rules['short_circuit_to_if'] += 1
+            res = self.newtmp()
+            preb, eb = self.with_pre(lambda: self.expr(b))
+            self.hoist('_Bool %s = (_Bool)(%s);' % (res, ea),
+                       'if (%s%s) { %s %s = (_Bool)(%s); }' % ('' if op == '&&' else '!', res, ' '.join(preb), res, eb))
+            return res
         if op == ',':
             return '(%s, %s)' % (self.expr(a), self.expr(b))
         if op in ('.*', '->*'):
@@ -1094,6 +1113,14 @@ class Emitter:
     def e_CXXMemberCallExpr(self, n, stmt=False):
         ks = self.kids(n)
         me = self.unwrap(ks[0])
+        if me['kind'] == 'BinaryOperator' and me.get('opcode') in ('.*', '->*') and self.spec.get('ptr_to_member_call'):
+            # (obj.*pmf)(args): the callee is data; the spec names the model function that stands for "invoke the member function pmf on obj"
+            self.rules['pointer_to_member_call'] += 1
+            obj, pmf = self.kids(me)
+            oe = self.expr(obj)
+            oaddr = oe if me['opcode'] == '->*' else (oe[2:-1] if (oe.startswith('(*') and oe.endswith(')') and self._balanced(oe[2:-1])) else '&(%s)' % oe)
+            argl = [oaddr, self.expr(pmf)] + [self.expr(a) for a in ks[1:]]
+            return self.finish_call(self.spec['ptr_to_member_call'], argl, n, stmt, self.tstr(n['type']) + ' ()')
         if me['kind'] != 'MemberExpr':
             raise Unsupported('member call through ' + me['kind'])
         base = self.kids(me)[0]
@@ -1145,6 +1172,11 @@ class Emitter:
             h = self.spec.get('call_handlers', {}).get(key)
             if h:
                 return h(self, n, args, stmt)
+            if nm == 'operator=' and any(re.fullmatch(rx, cls) for rx in self.spec.get('pod', [])) and len(args) == 2 \
+                    and self.class_of(args[1]['type']) == cls and not (self.calls.get(key + '|' + sig) or self.calls.get(key)):
+                # copy assignment of a class the spec declares plain data: memberwise = struct assignment
+                self.rules['pod_copy_assign'] += 1
+                return '(%s = %s)' % (self.expr(args[0]), self.expr(args[1]))
             cname = self.callee_name(nm, sig, cls)
             selfarg = self.lvalue_addr(args[0])
             argl = [selfarg] + self.args_for(sig, args[1:], cname)
